@@ -240,6 +240,22 @@ pub fn hostile_footers(thorough: bool) -> Vec<String> {
     v
 }
 
+/// the i-th string (shortest first) over the alphabet
+fn nth_string(alpha: &[char], mut i: u64) -> String {
+    let k = alpha.len() as u64;
+    let mut len = 0u32;
+    while i >= k.pow(len) {
+        i -= k.pow(len);
+        len += 1;
+    }
+    let mut out = vec![' '; len as usize];
+    for pos in (0..len as usize).rev() {
+        out[pos] = alpha[(i % k) as usize];
+        i /= k;
+    }
+    out.into_iter().collect()
+}
+
 fn spaces(thorough: bool) -> Vec<(String, u64, String, Box<dyn Fn(u64, &mut Acc) + Sync>)> {
     let mut v: Vec<(String, u64, String, Box<dyn Fn(u64, &mut Acc) + Sync>)> = vec![];
     for (label, b) in bases() {
@@ -263,6 +279,27 @@ fn spaces(thorough: bool) -> Vec<(String, u64, String, Box<dyn Fn(u64, &mut Acc)
         let table = if i / 2 % 2 == 0 { vec![] } else { vec![(0i64, 1usize)] };
         let b = rz::write_tzif(&zone(ver, table, f));
         case_bytes(&format!("footer v{} {:?}", ver, f), &b, i % 8 == 0, acc);
+    })));
+    // every string over a small alphabet, up to a length, in each numeric position of the footer
+    // (an enumeration rather than a menu: nothing about the shape of the fault is assumed)
+    let num_alpha: Vec<char> = if thorough { vec!['0', '1', '2', '6', '9', ':', '-', '+'] } else { vec!['0', '1', '6', ':', '-', '+'] };
+    let num_len = if thorough { 8u32 } else { 7 };
+    let slots: [(&str, &str); 4] = [("A", ""), ("CET-1CEST", ",M3.5.0,M10.5.0"), ("CET-1CEST,M3.5.0/", ",M10.5.0"), ("CET-1CEST,M3.5.0,M10.5.0/", "")];
+    let per_slot: u64 = (0..=num_len).map(|l| (num_alpha.len() as u64).pow(l)).sum();
+    v.push((format!("every string of length <= {} over {:?} in each numeric footer slot (std offset, dst offset, both rule times)", num_len, num_alpha.iter().collect::<String>()), per_slot * slots.len() as u64, "offsets and times with any number of ':' fields, signs in any place, empty fields, leading zeros, two-digit overflows".into(), Box::new(move |i, acc| {
+        let (pre, post) = slots[(i / per_slot) as usize];
+        let text = nth_string(&num_alpha, i % per_slot);
+        let b = rz::write_tzif(&zone(if i % 2 == 0 { 2 } else { 3 }, vec![], &format!("{}{}{}", pre, text, post)));
+        case_bytes(&format!("footer slot {:?}+{:?}+{:?}", pre, text, post), &b, i % 64 == 0, acc);
+    })));
+    let rule_alpha: Vec<char> = if thorough { vec!['M', 'J', '0', '1', '3', '5', '7', '.', '/', '-'] } else { vec!['M', 'J', '0', '1', '5', '.', '/'] };
+    let rule_len = if thorough { 7u32 } else { 6 };
+    let per_rule: u64 = (0..=rule_len).map(|l| (rule_alpha.len() as u64).pow(l)).sum();
+    v.push((format!("every string of length <= {} over {:?} as the first and as the second transition rule", rule_len, rule_alpha.iter().collect::<String>()), per_rule * 2, "rule kinds, dots, slashes and numbers in any arrangement".into(), Box::new(move |i, acc| {
+        let text = nth_string(&rule_alpha, i % per_rule);
+        let footer = if i / per_rule == 0 { format!("CET-1CEST,{},M10.5.0", text) } else { format!("CET-1CEST,M3.5.0,{}", text) };
+        let b = rz::write_tzif(&zone(2, vec![], &footer));
+        case_bytes(&format!("footer rule {:?}", footer), &b, i % 64 == 0, acc);
     })));
     let junk: Vec<Vec<u8>> = vec![vec![], b"TZif".to_vec(), b"TZif2".to_vec(), vec![0; 44], vec![0xff; 100], b"TZif3\0\0\0\0\0\0\0\0\0\0\0\0\0\0\0".to_vec(), b"not a tz file at all".to_vec()];
     v.push(("non-TZif byte strings".into(), junk.len() as u64, "".into(), Box::new(move |i, acc| case_bytes("junk", &junk[i as usize], true, acc))));
